@@ -17,11 +17,15 @@ type nameType struct{ name, typ string }
 func containsReturn(n ast.Node) bool {
 	found := false
 	ast.Inspect(n, func(n ast.Node) bool {
-		switch n.(type) {
+		switch x := n.(type) {
 		case *ast.FuncLit:
 			return false
 		case *ast.ReturnStmt:
 			found = true
+		case *ast.BranchStmt:
+			if x.Tok == token.GOTO {
+				found = true
+			}
 		}
 		return true
 	})
@@ -252,6 +256,7 @@ func (f *g2lFn) forStmt(s *ast.ForStmt, rest kont) []string {
 	if s.Cond != nil {
 		all = append(all, s.Cond)
 	}
+	all = append(all, f.gotoTargets(s.Body)...)
 	captured := f.usedOuter(all, s.Body.Pos(), ex)
 	sp := &loopSpec{at: s, carried: f.varsNT(carried, s), captured: f.varsNT(captured, s), hasRet: containsReturn(s.Body), body: s.Body.List}
 	if s.Cond != nil {
@@ -365,4 +370,20 @@ func ifBlank(s, alt string) string {
 		return alt
 	}
 	return s
+}
+
+// gotoTargets: the statements a `goto` inside n jumps to (they run with the loop's variables in scope)
+func (f *g2lFn) gotoTargets(n ast.Node) []ast.Node {
+	out := []ast.Node{}
+	ast.Inspect(n, func(x ast.Node) bool {
+		if b, ok := x.(*ast.BranchStmt); ok && b.Tok == token.GOTO && b.Label != nil {
+			if idx, ok := f.labels[b.Label.Name]; ok {
+				for _, st := range f.fd.Body.List[idx:] {
+					out = append(out, st)
+				}
+			}
+		}
+		return true
+	})
+	return out
 }
